@@ -5,6 +5,7 @@ pub mod c05;
 pub mod c06;
 pub mod c10;
 pub mod c11;
+pub mod c12;
 pub mod c15;
 pub mod c16;
 pub mod families;
@@ -23,6 +24,7 @@ pub fn run_check(id: &str, tier: &str, seed: u64) -> Option<i32> {
         "C06" => c06::run(tier, seed),
         "C10" => c10::run(tier, seed),
         "C11" => c11::run(tier, seed),
+        "C12" => c12::run(tier, seed),
         "C15" => c15::run(tier, seed),
         "C16" => c16::run(tier, seed),
         _ => return None,
@@ -45,7 +47,17 @@ pub fn replay(replay: &Value) -> Result<Vec<Violation>, String> {
         "C10" | "C10-free" => c10::replay(replay)?,
         "C11" | "C11-sim" => c11::replay(replay)?,
         "C16" => c16::replay(replay)?,
+        "C12" => c12::replay(replay)?,
         "C15" => c15::replay(replay["input"].as_str().ok_or("input")?),
         other => return Err(format!("unknown replay kind `{other}`")),
     })
+}
+
+/// worker subprocess entry (crash isolation): `mc worker <name>`
+pub fn worker(name: &str) -> Option<()> {
+    match name {
+        "C12" => crate::engine::worker_loop(c12::worker_check),
+        _ => return None,
+    }
+    Some(())
 }
